@@ -644,6 +644,12 @@ class Interp(object):
                 if isinstance(node, ast.Assign):
                     for t in node.targets:
                         if isinstance(t, ast.Name) and t.id == attr:
+                            if not getattr(inst, "constructed", False) and self.repo.attr_is_assigned(attr):
+                                # an object that was not built on this path (the receiver or an argument of the function
+                                # under verification) and a data attribute that SOME code assigns: its value depends on
+                                # the object's history, which only a field declared by the contract can describe
+                                raise OutOfSubset("field %s of a %s is not declared by the contract and is assigned somewhere "
+                                                  "in the code: its value depends on the object's history" % (attr, inst.cls))
                             return self.eval(node.value, Env(module=m))
             base = None
             for b in cls.bases:
